@@ -399,8 +399,11 @@ def materialise(layout, root):
         parts = f["path"].split("/")
         if len(parts) > 1:
             os.makedirs(os.path.join(root, *parts[:-1]), exist_ok=True)
-        with _real_open(os.path.join(root, *parts), "wb") as fh:
+        path = os.path.join(root, *parts)
+        with _real_open(path, "wb") as fh:
             fh.write(bytes.fromhex(f["content"]))
+        # timestamps carry no information: every generated file has the same one
+        os.utime(path, (1_600_000_000, 1_600_000_000))
 
 
 class FdRawReader(io.RawIOBase):
@@ -607,3 +610,82 @@ class ProcFds:
         fs.proc = None
         os.write = _real_os_write
         os.fdopen = _real_fdopen
+
+
+class FifoFeeder:
+    """A named pipe given to the CLI as FILE, filled like PipeFeeder fills
+    stdin: the next seeded chunk is written only when the pipe is empty."""
+
+    def __init__(self, path, data, rng, knobs, counters):
+        import _thread
+
+        self.path = path
+        self.data = bytes(data)
+        self.chunks = []
+        pos = 0
+        while pos < len(self.data):
+            k = _pick_chunk(rng, knobs, min(len(self.data) - pos, 32768))
+            if len(self.chunks) > 300:
+                k = len(self.data) - pos
+            self.chunks.append(self.data[pos : pos + k])
+            pos += k
+        counters["fifo_chunks"] = counters.get("fifo_chunks", 0) + len(self.chunks)
+        if os.path.exists(path):
+            os.unlink(path)
+        os.mkfifo(path)
+        self._stop = False
+        self._done = _thread.allocate_lock()
+        self._done.acquire()
+
+    def start(self):
+        import _thread
+
+        _thread.start_new_thread(self._run, ())
+
+    def _run(self):
+        import array
+        import fcntl
+        import select
+        import termios
+
+        fd = None
+        try:
+            while not self._stop and fd is None:
+                try:
+                    fd = os.open(self.path, os.O_WRONLY | os.O_NONBLOCK)
+                except OSError:
+                    select.select([], [], [], 0.0005)  # no reader yet
+            if fd is None:
+                return
+            fcntl.fcntl(fd, fcntl.F_SETFL, fcntl.fcntl(fd, fcntl.F_GETFL) & ~os.O_NONBLOCK)
+            buf = array.array("i", [0])
+
+            def pending():
+                fcntl.ioctl(fd, termios.FIONREAD, buf)
+                return buf[0]
+
+            for ch in self.chunks:
+                while not self._stop and pending() > 0:
+                    select.select([], [], [], 0.0002)
+                if self._stop:
+                    break
+                os.write(fd, ch)
+            while not self._stop and pending() > 0:
+                select.select([], [], [], 0.0002)
+        except OSError:
+            pass
+        finally:
+            if fd is not None:
+                try:
+                    os.close(fd)
+                except OSError:
+                    pass
+            self._done.release()
+
+    def stop(self):
+        self._stop = True
+        self._done.acquire(timeout=5)
+        try:
+            os.unlink(self.path)
+        except OSError:
+            pass
